@@ -17,7 +17,7 @@ _BIN = {"operator.add": ast.Add, "operator.sub": ast.Sub, "operator.mul": ast.Mu
 _CMP = {"operator.eq": ast.Eq, "operator.ne": ast.NotEq, "operator.lt": ast.Lt, "operator.le": ast.LtE, "operator.gt": ast.Gt, "operator.ge": ast.GtE,
         "operator.is_": ast.Is, "operator.is_not": ast.IsNot}
 DIRECT = set(_BIN) | set(_CMP) | {"operator.not_", "operator.truth", "operator.contains", "operator.getitem", "operator.neg", "operator.iadd", "operator.index",
-                                  "itertools.chain", "itertools.chain.from_iterable", "builtins.next", "builtins.iter"}
+                                  "itertools.chain", "itertools.chain.from_iterable", "builtins.next", "builtins.iter", "functools.reduce", "itertools.takewhile", "itertools.islice"}
 
 
 def make(name, args, kwargs) -> Value:
@@ -59,6 +59,34 @@ def direct(I, run, name, args, kwargs, node) -> Value:
             run.cell(a).items.extend(list(I.iterate(run, I.resolve(run, args[1]), node)))   # in place, like +=
             return a
         return T.binop(I, run, ast.Add(), args[0], args[1], node)
+    if name == "itertools.takewhile":
+        pred, src = args[0], I.resolve(run, args[1])
+        if is_hof(src, "itertools.repeat") and len(parts(src)[1]) == 1:
+            # takewhile(pred, repeat(x)): x as long as pred(x) holds -- the same lazy stream as iter(callable, sentinel)
+            return App("hof", (C("takewhile-repeat"), Tup((pred, parts(src)[1][0])), Tup(())))
+        out = []
+        for x in I.iterate(run, src, node):
+            if not I.truth(run, I.call(run, pred, [x], {}, node), node):
+                break
+            out.append(x)
+        return run.alloc(HList(out, oneshot=True))
+    if name == "itertools.islice":
+        src = list(I.iterate(run, I.resolve(run, args[0]), node))
+        sl = [I.resolve(run, a) for a in args[1:]]
+        if all(isinstance(a, C) for a in sl):
+            return run.alloc(HList(src[slice(*[a.v for a in sl])], oneshot=True))
+        return T.external(I, run, name, args, kwargs, node)
+    if name == "functools.reduce":
+        items = list(I.iterate(run, I.resolve(run, args[1]), node))
+        if len(args) > 2:
+            acc = args[2]
+        elif items:
+            acc, items = items[0], items[1:]
+        else:
+            I.raise_builtin(run, "TypeError", node, C("reduce() of empty iterable with no initial value"))
+        for x in items:
+            acc = I.call(run, args[0], [acc, x], {}, node)
+        return acc
     if name == "itertools.chain":
         out: List[Value] = []
         for a in args:
